@@ -7,6 +7,7 @@ rationals; IEEE rounding is outside the model (see DESIGN.md §3.1).
 import OdcGeo.Model.C20
 import OdcGeo.Lemmas.C20
 import OdcGeo.Lemmas.C20b
+import OdcGeo.Lemmas.C20c
 import OdcGeo.Props.C17
 
 namespace OdcGeo.C20
@@ -162,7 +163,7 @@ theorem snap_grid_minimal {x0 x1 res tol tx : Rat} {nx : Int} (off : Option Rat)
     obtain ⟨n, t, h', _, _, _, _, _, _, h3⟩ := snapGrid_none_spec hr hx ht (tol := tol)
     rw [h] at h'; cases h'; exact h3 hs
   | some op =>
-    obtain ⟨i, n, t, h', _, _, _, _, h1, _, _, h3⟩ := snapGrid_some_spec hr hx (hop op rfl) ht ht2
+    obtain ⟨i, n, t, h', _, _, _, _, h1, _, _, h3, _⟩ := snapGrid_some_spec hr hx (hop op rfl) ht ht2
     rw [h] at h'; cases h'
     exact ⟨by nlinarith, h3 hs⟩
 
@@ -233,5 +234,306 @@ theorem snap_grid_rejects (x0 x1 res tol : Rat) :
     have : ¬ (x1 - op * rabs res ≥ x0 - op * rabs res) := by
       rw [ge_iff_le, not_le]; linarith
     simp [snapEdge, this]
+
+/-! ## `is_affine_st`, `snap_affine` -/
+
+theorem is_affine_st_iff (A : Aff) (tol : Rat) : isAffineSt A tol = true ↔ |A.b| < tol ∧ |A.d| < tol := by
+  simp [isAffineSt, rabs_eq_abs]
+
+/-- A transform with rotation / shear above `tol` is returned untouched. -/
+theorem snap_affine_rotated_untouched (A : Aff) (ttol stol tol : Rat) (h : tol < |A.b| ∨ tol < |A.d|) :
+    snapAffine A ttol stol tol = .ok A := by
+  unfold snapAffine
+  rw [if_pos (by simpa [rabs_eq_abs] using h)]
+
+/-- Otherwise the off-diagonal terms become `0`, each translation moves by less than `ttol` (or
+not at all) and each scale is `snap_scale` of the input scale (see `snap_scale_within_tol`). -/
+theorem snap_affine_within_tol {A B : Aff} {ttol stol tol : Rat} (hr : ¬ (tol < |A.b| ∨ tol < |A.d|))
+    (h : snapAffine A ttol stol tol = .ok B) :
+    B.b = 0 ∧ B.d = 0 ∧ (B.c = A.c ∨ |A.c - B.c| < ttol) ∧ (B.f = A.f ∨ |A.f - B.f| < ttol) ∧
+      snapScale A.a stol = .ok B.a ∧ snapScale A.e stol = .ok B.e := by
+  obtain ⟨sx, sy, h1, h2, rfl⟩ := snapAffine_inv hr h
+  exact ⟨rfl, rfl, maybeInt_close A.c ttol, maybeInt_close A.f ttol, h1, h2⟩
+
+/-- `snap_affine` is idempotent (all tolerances, rotated or not). -/
+theorem snap_affine_idem {A B : Aff} {ttol stol tol : Rat} (h : snapAffine A ttol stol tol = .ok B) :
+    snapAffine B ttol stol tol = .ok B := by
+  by_cases hr : tol < |A.b| ∨ tol < |A.d|
+  · rw [snap_affine_rotated_untouched A ttol stol tol hr] at h
+    have := Except.ok.inj h; subst this
+    exact snap_affine_rotated_untouched A ttol stol tol hr
+  · obtain ⟨sx, sy, h1, h2, rfl⟩ := snapAffine_inv hr h
+    unfold snapAffine
+    split
+    · rfl
+    · rw [snapScale_idem h1, snapScale_idem h2]
+      simp only [bind, Except.bind, pure, Except.pure, maybeInt_idem]
+
+/-! ## `affine_from_pts`, `Poly2d.fit`: least squares on exactly representable mappings -/
+
+/-- The squared residual vanishes exactly when the map reproduces every correspondence. -/
+theorem sq_residual_zero_iff (M : Aff) (XY : List ((Rat × Rat) × (Rat × Rat))) :
+    sqResidual M XY = 0 ↔ ∀ q ∈ XY, M.apply q.1 = q.2 :=
+  sqResidual_eq_zero_iff M XY
+
+/-- **`affine_fit_exact`**: if `Y = A·X` holds exactly on the correspondences and three of the `X`
+are not collinear, then *every* least-squares minimiser equals `A` (so whatever LAPACK returns,
+if it is a minimiser, it is `A`). -/
+theorem affine_fit_exact (A M : Aff) (XY : List ((Rat × Rat) × (Rat × Rat)))
+    (hexact : ∀ q ∈ XY, A.apply q.1 = q.2)
+    (hmin : ∀ M' : Aff, sqResidual M XY ≤ sqResidual M' XY)
+    (p q r : (Rat × Rat) × (Rat × Rat)) (hp : p ∈ XY) (hq : q ∈ XY) (hr : r ∈ XY)
+    (hnc : (q.1.1 - p.1.1) * (r.1.2 - p.1.2) - (q.1.2 - p.1.2) * (r.1.1 - p.1.1) ≠ 0) :
+    M = A := by
+  have h0 : sqResidual A XY = 0 := (sqResidual_eq_zero_iff A XY).mpr hexact
+  have h1 : sqResidual M XY = 0 := le_antisymm (h0 ▸ hmin A) (sqResidual_nonneg M XY)
+  have hM := (sqResidual_eq_zero_iff M XY).mp h1
+  exact aff_eq_of_three (by rw [hM p hp, hexact p hp]) (by rw [hM q hq, hexact q hq])
+    (by rw [hM r hr, hexact r hr]) hnc
+
+/-- `affine_from_pts` with a solver that returns a minimiser reproduces an exact mapping. -/
+theorem affine_from_pts_exact (lstsq : List (Rat × Rat) → List (Rat × Rat) → Option Aff)
+    (X Y : List (Rat × Rat)) (A M : Aff)
+    (hsolver : ∀ M0, lstsq X Y = some M0 → ∀ M' : Aff, sqResidual M0 (X.zip Y) ≤ sqResidual M' (X.zip Y))
+    (hexact : ∀ q ∈ X.zip Y, A.apply q.1 = q.2)
+    (p q r : (Rat × Rat) × (Rat × Rat)) (hp : p ∈ X.zip Y) (hq : q ∈ X.zip Y) (hr : r ∈ X.zip Y)
+    (hnc : (q.1.1 - p.1.1) * (r.1.2 - p.1.2) - (q.1.2 - p.1.2) * (r.1.1 - p.1.1) ≠ 0)
+    (h : affineFromPts lstsq X Y = .ok M) : M = A := by
+  unfold affineFromPts at h
+  split at h
+  · exact absurd h (by simp)
+  · split at h
+    · exact absurd h (by simp)
+    · split at h
+      · rename_i M0 hM0
+        have := Except.ok.inj h; subst this
+        exact affine_fit_exact A M0 _ hexact (hsolver M0 hM0) p q r hp hq hr hnc
+      · exact absurd h (by simp)
+
+/-- `affine_from_pts` needs at least three points and equally many on both sides. -/
+theorem affine_from_pts_rejects (lstsq : List (Rat × Rat) → List (Rat × Rat) → Option Aff)
+    (X Y : List (Rat × Rat)) (h : X.length ≠ Y.length ∨ X.length < 3) :
+    affineFromPts lstsq X Y = .error .assertion := by
+  unfold affineFromPts
+  rcases h with h | h
+  · rw [if_pos h]
+  · by_cases h1 : X.length ≠ Y.length
+    · rw [if_pos h1]
+    · rw [if_neg h1, if_pos h]
+
+/-- **`poly_fit_exact_partial`** (general least-squares fact behind `Poly2d.fit`): for any
+parametrised model `F`, if some parameter reproduces the data exactly then every minimiser of the
+squared residual reproduces it too; with an injective design (hypothesis `hinj`) the minimiser is
+that parameter.  *Partial*: the normalisation `norm_xy` (uses `sqrt`) is not modelled; the
+de-normalisation step is `poly_fit_denorm` below. -/
+theorem poly_fit_exact_partial {C : Type} (F : C → (Rat × Rat) → (Rat × Rat))
+    (XY : List ((Rat × Rat) × (Rat × Rat))) (c0 c : C)
+    (hexact : ∀ q ∈ XY, F c0 q.1 = q.2)
+    (hmin : ∀ c' : C,
+      (XY.map fun q => ((F c q.1).1 - q.2.1) * ((F c q.1).1 - q.2.1) + ((F c q.1).2 - q.2.2) * ((F c q.1).2 - q.2.2)).sum ≤
+      (XY.map fun q => ((F c' q.1).1 - q.2.1) * ((F c' q.1).1 - q.2.1) + ((F c' q.1).2 - q.2.2) * ((F c' q.1).2 - q.2.2)).sum) :
+    (∀ q ∈ XY, F c q.1 = q.2) ∧
+      ((∀ c1 c2 : C, (∀ q ∈ XY, F c1 q.1 = F c2 q.1) → c1 = c2) → c = c0) := by
+  have key : ∀ (c : C) (L : List ((Rat × Rat) × (Rat × Rat))),
+      0 ≤ (L.map fun q => ((F c q.1).1 - q.2.1) * ((F c q.1).1 - q.2.1) + ((F c q.1).2 - q.2.2) * ((F c q.1).2 - q.2.2)).sum ∧
+      ((L.map fun q => ((F c q.1).1 - q.2.1) * ((F c q.1).1 - q.2.1) + ((F c q.1).2 - q.2.2) * ((F c q.1).2 - q.2.2)).sum = 0 ↔
+        ∀ q ∈ L, F c q.1 = q.2) := by
+    intro c L
+    induction L with
+    | nil => simp
+    | cons q qs ih =>
+      simp only [List.map_cons, List.sum_cons, List.mem_cons, forall_eq_or_imp]
+      have h1 := mul_self_nonneg ((F c q.1).1 - q.2.1)
+      have h2 := mul_self_nonneg ((F c q.1).2 - q.2.2)
+      refine ⟨by linarith [ih.1], ?_⟩
+      constructor
+      · intro h
+        have e1 : ((F c q.1).1 - q.2.1) * ((F c q.1).1 - q.2.1) = 0 := by linarith [ih.1]
+        have e2 : ((F c q.1).2 - q.2.2) * ((F c q.1).2 - q.2.2) = 0 := by linarith [ih.1]
+        refine ⟨Prod.ext (by linarith [mul_self_eq_zero.mp e1]) (by linarith [mul_self_eq_zero.mp e2]), ?_⟩
+        exact ih.2.mp (by linarith [ih.1])
+      · rintro ⟨hq, hqs⟩
+        rw [ih.2.mpr hqs, hq]; ring
+  have h0 := (key c0 XY).2.mpr hexact
+  have h1 := le_antisymm (h0 ▸ hmin c0) (key c XY).1
+  have hc := (key c XY).2.mp h1
+  refine ⟨hc, fun hinj => hinj c c0 fun q hq => ?_⟩
+  rw [hc q hq, hexact q hq]
+
+/-! ## `Poly2d` -/
+
+/-- The scale/translation shortcut of `Poly2d._norm` (taken only for exactly zero off-diagonal
+terms) computes the same point as the full affine map. -/
+theorem poly_norm_eq_apply (A : Aff) (p : Rat × Rat) : Poly2d.norm A p = A.apply p := by
+  unfold Poly2d.norm
+  split
+  · rename_i h
+    simp [Aff.apply, h.1, h.2]
+  · rfl
+
+/-- **`poly_with_input_transform`**: `eval (p.with_input_transform A) x = eval p (A x)`. -/
+theorem poly_with_input_transform (P : Poly2d) (A : Aff) (p : Rat × Rat) :
+    (P.withInputTransform A).eval p = P.eval (A.apply p) := by
+  simp only [Poly2d.eval, Poly2d.withInputTransform, poly_norm_eq_apply, Aff.apply_mul]
+
+/-- Before the repair (`_norm` ignored off-diagonal terms below an absolute `1e-6`) the
+composition law failed: normalising scale `2⁻¹⁴`, input rotated by `2⁻⁶` rad-ish shear, point
+`(0, 2¹⁴)` (replayed on the real code by the harness: key
+`poly2d-input-transform-ignores-small-rotation`). -/
+theorem poly_with_input_transform_prefix_cex :
+    let cc : List (List (Rat × Rat)) := [[(0, 0), (0, 1)], [(1, 0), (0, 0)]]   -- the identity polynomial
+    let A1 : Aff := Aff.scale (1 / 16384) (1 / 16384)
+    let A2 : Aff := ⟨1, -(1 / 64), 0, 1 / 64, 1, 0⟩
+    Poly2d.evalCC cc (Poly2d.normTol (A1 * A2) (0, 16384)) ≠
+      Poly2d.evalCC cc (Poly2d.normTol A1 (A2.apply (0, 16384))) := by
+  decide +kernel
+
+/-- Output de-normalisation of `_fit4` (`cc*s; cc[0,:] += (tx,ty)` with `(s,_,tx,_,_,ty) = ~Ab`,
+`Ab = S(s)·…` uniform scale + translation): the de-normalised polynomial is `Ab⁻¹ ∘ q`. -/
+theorem poly_fit_denorm (c0 c1 c2 c3 : Rat × Rat) (Ab : Aff) (hb : Ab.b = 0) (hd : Ab.d = 0)
+    (hs : Ab.a = Ab.e) (q : Rat × Rat) :
+    Poly2d.evalCC (Poly2d.reshape 2 (Poly2d.denorm [c0, c1, c2, c3] Ab)) q =
+      Ab.inv.apply (Poly2d.evalCC (Poly2d.reshape 2 [c0, c1, c2, c3]) q) := by
+  have e1 : Ab.inv.b = 0 := by simp [Aff.inv, hb]
+  have e2 : Ab.inv.d = 0 := by simp [Aff.inv, hd]
+  have e3 : Ab.inv.e = Ab.inv.a := by simp [Aff.inv, hs]
+  simp only [Poly2d.evalCC, Poly2d.reshape, Poly2d.denorm, polyval2d, polyval, Aff.apply, e1, e2, e3,
+    List.range, List.range.loop, List.map, List.drop, List.take, List.foldr]
+  ext <;> simp <;> ring
+
+/-! ## `data_resolution_and_offset`, `affine_from_axis` -/
+
+/-- **`affine_from_axis_roundtrip`**: labels `t + (i + ½)·r`, `i < n`, `n ≥ 2` give back
+resolution `r` and offset `t` (pixel-edge convention). -/
+theorem affine_from_axis_roundtrip (t r : Rat) (n : Nat) (hn : 2 ≤ n) (fb : Option Rat) :
+    dataResolutionAndOffset ((List.range n).map fun (i : Nat) => t + ((i : Rat) + 1 / 2) * r) fb = .ok (r, t) := by
+  obtain ⟨m, rfl⟩ : ∃ m, n = m + 2 := ⟨n - 2, by omega⟩
+  have hlist : (List.range (m + 2)).map (fun (i : Nat) => t + ((i : Rat) + 1 / 2) * r) =
+      (t + ((0 : Nat) + 1 / 2) * r) :: (t + ((1 : Nat) + 1 / 2) * r) ::
+        (List.range m).map (fun (i : Nat) => t + (((i + 2 : Nat) : Rat) + 1 / 2) * r) := by
+    apply List.ext_getElem
+    · simp
+    · intro i h1 h2
+      rcases i with _ | _ | k
+      · simp
+      · simp
+      · simp; left; ring
+  rw [hlist]
+  unfold dataResolutionAndOffset
+  simp only
+  have hlast : ((t + ((1 : Nat) + 1 / 2) * r) ::
+        (List.range m).map (fun (i : Nat) => t + (((i + 2 : Nat) : Rat) + 1 / 2) * r)).getLast
+        (List.cons_ne_nil _ _) = t + (((m + 1 : Nat) : Rat) + 1 / 2) * r := by
+    rw [List.getLast_eq_getElem]
+    cases m with
+    | zero => simp
+    | succ k => simp; left; ring
+  rw [hlast]
+  have hlen : (((t + ((1 : Nat) + 1 / 2) * r) ::
+      (List.range m).map (fun (i : Nat) => t + (((i + 2 : Nat) : Rat) + 1 / 2) * r)).length : Nat) = m + 1 := by
+    simp
+  rw [hlen]
+  have hm : ((m + 1 : Nat) : Rat) ≠ 0 := by positivity
+  congr 1
+  ext
+  · push_cast at hm ⊢; field_simp; ring
+  · push_cast at hm ⊢; field_simp; ring
+
+/-- A single label needs the fallback resolution; no label is an error. -/
+theorem data_resolution_small (x : Rat) (fb : Option Rat) :
+    dataResolutionAndOffset [] fb = .error .valueError ∧
+    dataResolutionAndOffset [x] none = .error .valueError ∧
+    (∀ r, dataResolutionAndOffset [x] (some r) = .ok (r, x - 1 / 2 * r)) :=
+  ⟨rfl, rfl, fun _ => rfl⟩
+
+/-- `affine_from_axis` is `T(xoff, yoff)·S(xres, yres)`: pixel `(i, j)`'s centre maps to the
+labels `(xx[i], yy[j])`. -/
+theorem affine_from_axis_centres (tx rx ty ry : Rat) (nx ny : Nat) (hnx : 2 ≤ nx) (hny : 2 ≤ ny)
+    (fb : Option (Rat × Rat)) :
+    ∃ A, affineFromAxis ((List.range nx).map fun (i : Nat) => tx + ((i : Rat) + 1 / 2) * rx)
+        ((List.range ny).map fun (j : Nat) => ty + ((j : Rat) + 1 / 2) * ry) fb = .ok A ∧
+      ∀ i j : Nat, A.apply ((i : Rat) + 1 / 2, (j : Rat) + 1 / 2) =
+        (tx + ((i : Rat) + 1 / 2) * rx, ty + ((j : Rat) + 1 / 2) * ry) := by
+  refine ⟨Aff.translation tx ty * Aff.scale rx ry, ?_, ?_⟩
+  · unfold affineFromAxis
+    rw [affine_from_axis_roundtrip tx rx nx hnx, affine_from_axis_roundtrip ty ry ny hny]
+    rfl
+  · intro i j
+    simp [Aff.mul_def, Aff.mul, Aff.apply, Aff.translation, Aff.scale]
+    constructor <;> ring
+
+/-! ## `Bin1D` -/
+
+/-- **Every point lies in the interval of the bin it is mapped to** (both directions). -/
+theorem bin1d_point_in_bin (b : Bin1D) (hsz : 0 < b.sz) (hd : b.direction = 1 ∨ b.direction = -1)
+    (x : Rat) : (b.interval (b.bin x)).1 ≤ x ∧ x < (b.interval (b.bin x)).2 := by
+  have h1 := Rat.floor_le ((x - b.origin) / b.sz)
+  have h2 := Rat.lt_floor_add_one ((x - b.origin) / b.sz)
+  push_cast at h2
+  rw [le_div_iff₀ hsz] at h1
+  rw [div_lt_iff₀ hsz] at h2
+  have hdd : (b.direction : Rat) * b.direction = 1 := by
+    rcases hd with h | h <;> rw [h] <;> norm_num
+  simp only [Bin1D.interval, Bin1D.bin]
+  push_cast
+  generalize ((x - b.origin) / b.sz).floor = k at h1 h2 ⊢
+  have e : (b.direction : Rat) * k * b.sz * b.direction = k * b.sz := by
+    linear_combination ((k : Rat) * b.sz) * hdd
+  rw [e]
+  constructor <;> linarith
+
+/-- Conversely every point of the interval `self[idx]` is mapped to bin `idx`. -/
+theorem bin1d_bin_of_interval (b : Bin1D) (hsz : 0 < b.sz) (hd : b.direction = 1 ∨ b.direction = -1)
+    (idx : Int) (x : Rat) (hx : (b.interval idx).1 ≤ x ∧ x < (b.interval idx).2) : b.bin x = idx := by
+  simp only [Bin1D.interval] at hx
+  obtain ⟨hx1, hx2⟩ := hx
+  have hfl : ((x - b.origin) / b.sz).floor = b.direction * idx := by
+    have hdd : (b.direction : Rat) * b.direction = 1 := by
+      rcases hd with h | h <;> rw [h] <;> norm_num
+    apply le_antisymm
+    · rw [← Int.lt_add_one_iff, Rat.floor_lt_iff, div_lt_iff₀ hsz]; push_cast; nlinarith
+    · rw [Rat.le_floor_iff, le_div_iff₀ hsz]; push_cast; nlinarith
+  simp only [Bin1D.bin, hfl]
+  rcases hd with h | h <;> rw [h] <;> ring
+
+/-- Consecutive intervals tile the line: all have width `sz` and `self[i + direction]` starts
+where `self[i]` ends. -/
+theorem bin1d_intervals_tile (b : Bin1D) (hd : b.direction = 1 ∨ b.direction = -1) (idx : Int) :
+    (b.interval idx).2 - (b.interval idx).1 = b.sz ∧
+      (b.interval (idx + b.direction)).1 = (b.interval idx).2 := by
+  have hdd : (b.direction : Rat) * b.direction = 1 := by
+    rcases hd with h | h <;> rw [h] <;> norm_num
+  simp only [Bin1D.interval]
+  push_cast
+  constructor
+  · ring
+  · linear_combination b.sz * hdd
+
+/-- **Reconstruction from a sample bin** gives back the same binning. -/
+theorem bin1d_from_sample_bin (b : Bin1D) (hsz : 0 < b.sz) (hd : b.direction = 1 ∨ b.direction = -1)
+    (idx : Int) :
+    Bin1D.fromSampleBin idx (b.interval idx).1 (b.interval idx).2 b.direction = .ok b := by
+  have hlt : (b.interval idx).1 < (b.interval idx).2 := by simp only [Bin1D.interval]; linarith
+  have hd' : b.direction = -1 ∨ b.direction = 1 := hd.symm
+  unfold Bin1D.fromSampleBin
+  rw [if_neg (not_not.mpr hlt)]
+  have hw : (b.interval idx).2 - (b.interval idx).1 = b.sz := by simp only [Bin1D.interval]; ring
+  simp only [hw]
+  unfold Bin1D.mk?
+  rw [if_neg (not_not.mpr hd'), if_neg (not_not.mpr hsz)]
+  have ho : (b.interval idx).1 - b.sz * (idx : Rat) * (b.direction : Rat) = b.origin := by
+    simp only [Bin1D.interval]; ring
+  rw [ho]
+
+/-- The constructor rejects a non-positive size and directions other than `±1`. -/
+theorem bin1d_rejects (sz origin : Rat) (d : Int) (h : ¬ (d = -1 ∨ d = 1) ∨ ¬ sz > 0) :
+    Bin1D.mk? sz origin d = .error .assertion := by
+  unfold Bin1D.mk?
+  rcases h with h | h
+  · rw [if_pos h]
+  · by_cases h1 : ¬ (d = -1 ∨ d = 1)
+    · rw [if_pos h1]
+    · rw [if_neg h1, if_pos h]
+
 
 end OdcGeo.C20
